@@ -181,6 +181,13 @@ class CR:
     @classmethod
     def __torch_function__(cls, func, types, args=(), kwargs=None):
         kwargs = kwargs or {}
+        import torch as _torch
+        if func in (_torch.isclose, _torch.allclose) and len(args) >= 2 and all(isinstance(x, (CR, int, float, Fraction)) for x in args[:2]):
+            # closeness test on two scalars: |a - b| <= atol + rtol*|b| (PyTorch's definition), a branch like any comparison
+            a, b = (x if isinstance(x, CR) else CR(Fraction(x), lift(Fraction(x))) for x in args[:2])
+            rtol = Fraction(str(kwargs.get('rtol', args[2] if len(args) > 2 else 1e-05)))
+            atol = Fraction(str(kwargs.get('atol', args[3] if len(args) > 3 else 1e-08)))
+            return abs(a - b) <= atol + rtol * abs(b)
         conv = lambda x: to_symt(x) if isinstance(x, CR) else x
         from torch.utils._pytree import tree_map
         return func(*tree_map(conv, args), **tree_map(conv, kwargs))
